@@ -1224,8 +1224,13 @@ def _unpack_and_recover_state(
         # this method minted it — the same answer a cold cache would give.
         resolved = None
     if resolved is None:
-        resolved = _resolve_call_from_token(app, call_token, call_id, state_info, auth, method_name)
-        app._call_state_cache.put(call_id, auth, resolved, now)
+        resolved, created_at = _resolve_call_from_token(app, call_token, call_id, state_info, auth, method_name)
+        # The entry stands in for the call token, so it must lapse when the
+        # token does: count its lifetime from the token's mint time, not from
+        # this refill, or every miss would extend it by another full TTL and
+        # an expired stream would keep being served from cache.  With expiry
+        # disabled there is no token lifetime to honour.
+        app._call_state_cache.put(call_id, auth, resolved, float(created_at) if app._token_ttl > 0 else now)
 
     if resolved.stream_id:
         _current_stream_id.set(resolved.stream_id)
@@ -1266,7 +1271,7 @@ def _resolve_call_from_token(
     state_info: _StateInfo,
     auth: AuthContext | None,
     method_name: str,
-) -> _ResolvedCall:
+) -> tuple[_ResolvedCall, int]:
     """Open a client-supplied call token — the cache-miss path.
 
     Args:
@@ -1280,7 +1285,8 @@ def _resolve_call_from_token(
             the method whose ``/init`` minted it.
 
     Returns:
-        The parsed :class:`_ResolvedCall`.
+        The parsed :class:`_ResolvedCall` and the token's mint time (seconds
+        since the epoch).
 
     Raises:
         _RpcHttpError: If the token is absent, fails to open, names a
@@ -1301,7 +1307,10 @@ def _resolve_call_from_token(
         input_schema_bytes,
         token_call_id,
         stream_id,
-    ) = _open_call_token(call_token, app._token_key, _compute_call_aad(auth, method_name), app._token_ttl)
+        created_at,
+    ) = _open_call_token(
+        call_token, app._token_key, _compute_call_aad(auth, method_name), app._token_ttl, with_created_at=True
+    )
     # Constant-time compare: the ids are both server-minted and already
     # authenticated, so this is belt-and-braces against a client pairing two
     # of its own tokens from different streams.
@@ -1343,4 +1352,4 @@ def _resolve_call_from_token(
                 status_code=HTTPStatus.BAD_REQUEST,
             ) from exc
 
-    return _ResolvedCall(call_state, output_schema, input_schema, stream_id, method_name)
+    return _ResolvedCall(call_state, output_schema, input_schema, stream_id, method_name), created_at
